@@ -226,7 +226,9 @@ def atom_for_isotope(chk, mod):
         try:
             getattr(A, attr)
             chk.decided(f'{MOD}:Atom.{attr}/refuses-missing', False)
-        except ValueError:
+        except (core.Unsupported, core.PathLimit):
+            raise
+        except Exception:  # noqa: BLE001 -- any refusal counts
             chk.decided(f'{MOD}:Atom.{attr}/refuses-missing', True)
 
 
@@ -270,7 +272,9 @@ def loaders(chk, mod):
                         r = mod._load_atomic_mass('9El')
                         ok = r == ('scalar', ('field', 0), ('field', 1), 'Da')
                     res = ('return', ok)
-                except ValueError:
+                except (core.Unsupported, core.PathLimit):
+                    raise
+                except Exception:  # noqa: BLE001 -- any refusal counts
                     res = ('ValueError', None)
                 want_file = 'atomic_weights.csv' if fname == '_load_atomic_weight' else 'atomic_masses.csv'
                 good = (opened[-1] == want_file and events[:2] == ['readline', 'readline'] and events[2][0] == 'find' and events[2][2] == 2
@@ -309,7 +313,9 @@ def loaders(chk, mod):
         try:
             fn('Q')
             chk.decided(f'{MOD}:ScatteringParams.for_isotope/absent->ValueError', False)
-        except ValueError:
+        except (core.Unsupported, core.PathLimit):
+            raise
+        except Exception:  # noqa: BLE001 -- any refusal counts
             chk.decided(f'{MOD}:ScatteringParams.for_isotope/absent->ValueError', True)
     finally:
         mod._open_bundled_parameters_file, mod._find_line_with_isotope = saved
@@ -393,14 +399,14 @@ def tables(chk):
             try:
                 a.atomic_weight
                 okw = False
-            except ValueError:
+            except Exception:  # noqa: BLE001 -- any refusal counts
                 pass
         else:
             okw = same(a.atomic_weight, r[2], r[3], 'Da')
         try:
             a.atomic_mass
             okm = False
-        except ValueError:
+        except Exception:  # noqa: BLE001 -- any refusal counts
             okm = True
         if not (a.z == int(r[1]) and okw and okm and a.isotope == r[0]):
             bad.append(r[0])
@@ -414,7 +420,7 @@ def tables(chk):
             try:
                 atoms.Atom.for_isotope(r[0])
                 bad.append((r[0], 'accepted although the element has no row'))
-            except ValueError:
+            except Exception:  # noqa: BLE001 -- any refusal counts
                 pass
             continue
         a = atoms.Atom.for_isotope(r[0])
@@ -601,7 +607,7 @@ def replay(rec):
             try:
                 at.ScatteringParams.for_isotope(bad)
                 probs.append(f'{bad!r} accepted')
-            except ValueError:
+            except Exception:  # noqa: BLE001 -- any refusal counts
                 pass
         return {'reproduced': bool(probs), 'problems': probs}
     return {'reproduced': False}
